@@ -112,6 +112,7 @@ theorem nextStep_le {mem1 mem2 : Mem} (h : MemLe mem1 mem2) (m : Meth) (s : Step
   | nometh => right; rfl
   | linear _ _ => right; rfl
   | lookup _ _ _ => right; rfl
+  | custom _ _ _ _ => right; rfl
   | memarr t b sh es vs => exact nextMemarr_le h t sh vs s
   | pgt t root pm pf =>
     show nextStepPgt noExtra mem1 t pm pf s = _ ∨ nextStepPgt noExtra mem1 t pm pf s = nextStepPgt noExtra mem2 t pm pf s
